@@ -7,11 +7,13 @@ import (
 	"errors"
 	"fmt"
 	"io"
+	"net"
 	"net/http"
 	"net/http/httptest"
 	"reflect"
 	"sort"
 	"strings"
+	"syscall"
 	"time"
 
 	frugal "github.com/Workiva/frugal/lib/go"
@@ -74,7 +76,12 @@ type callPlan struct {
 	mwSrv                                                []string // processor-side middleware trace
 	mwSaw                                                []string // per middleware (innermost first): the result it saw coming back
 	via2                                                 bool     // issued through the second client
-	staleRespKey                                         string   // a response header name already present (with an old value) on the caller\'s context
+	connLost                                             bool     // HTTP: the connection was lost after the server had processed the request
+	onward                                               bool     // the handler makes an onward call with the context it was given, between setting response headers
+	onwardErr                                            error
+	onwardRet                                            int32
+	downCid, downOpid, downTag                           string
+	staleRespKey                                         string // a response header name already present (with an old value) on the caller\'s context
 	shape                                                func(hdr map[string]string)
 	expectReqTooLarge, expectRespTooLarge, sizeAmbiguous bool
 	sizeInfo                                             string
@@ -91,6 +98,7 @@ type e2eEnv struct {
 	tr              frugal.FTransport
 	client          *simsvc.FLeafClient
 	client2         *simsvc.FLeafClient
+	downCli         *simsvc.FLeafClient // a downstream service for onward calls of handlers
 	prov2Spec       []mwSpec
 	proc            frugal.FProcessor
 	plans           map[string]*callPlan
@@ -197,6 +205,16 @@ func (rt *simRoundTripper) RoundTrip(req *http.Request) (*http.Response, error) 
 	if i == 0 {
 		resp := rv.Interface().(*http.Response)
 		resp.Request = req
+		if f, err := DecodeFrame(decodeB64Frame(body)); err == nil && env.rc.Prop == "C03" {
+			if p := env.plans[f.Headers["tag"]]; p != nil && !p.connLost && env.rc.Tape.Intn("httplost", 8) == 1 {
+				// the server has processed the request; the connection goes away before a byte of the response
+				// reaches the client. The caller must hear of it - and the request must not be sent again on its behalf.
+				p.connLost = true
+				env.rc.Fault("http-connection-lost-after-the-server-processed-the-request")
+				return nil, []error{io.EOF, io.ErrUnexpectedEOF, errors.New("http: server closed idle connection"),
+					&net.OpError{Op: "read", Net: "tcp", Err: syscall.ECONNRESET}, &net.OpError{Op: "write", Net: "tcp", Err: syscall.EPIPE}}[env.rc.Tape.Intn("httplost", 5)]
+			}
+		}
 		return resp, nil
 	}
 	return nil, req.Context().Err()
@@ -353,6 +371,45 @@ func (env *e2eEnv) kill() {
 
 func (env *e2eEnv) quiet() bool { return env.b == nil || env.b.Pending() == 0 }
 
+// ---- downstream service (onward calls) ---------------------------------------------
+
+type downHandler struct {
+	simsvc.FLeaf
+	env *e2eEnv
+}
+
+func (d *downHandler) Add(fctx frugal.FContext, a, b int32) (int32, error) {
+	tag, _ := fctx.RequestHeader("tag")
+	if p := d.env.plans[tag]; p != nil {
+		p.downTag = tag
+		p.downCid = fctx.CorrelationID()
+		p.downOpid, _ = fctx.RequestHeader("_opid")
+	}
+	fctx.AddResponseHeader("zdown-r", "set-by-the-downstream-service")
+	return a + b, nil
+}
+
+type rtFunc func(*http.Request) (*http.Response, error)
+
+func (f rtFunc) RoundTrip(r *http.Request) (*http.Response, error) { return f(r) }
+
+// down returns a client of a second service in the same process, reached over frugal's HTTP transport with a
+// synchronous in-memory round trip.
+func (env *e2eEnv) down() *simsvc.FLeafClient {
+	if env.downCli == nil {
+		hf := frugal.NewFrugalHandlerFunc(simsvc.NewFLeafProcessor(&downHandler{env: env}), env.pf)
+		hc := &http.Client{Transport: rtFunc(func(r *http.Request) (*http.Response, error) {
+			rec := httptest.NewRecorder()
+			hf(rec, r)
+			return rec.Result(), nil
+		})}
+		tr := frugal.NewFHTTPTransportBuilder(hc, "http://down/frugal").Build()
+		tr.Open()
+		env.downCli = simsvc.NewFLeafClient(frugal.NewFServiceProvider(tr, env.pf))
+	}
+	return env.downCli
+}
+
 // ---- handler -------------------------------------------------------------------
 
 type simHandler struct{ env *e2eEnv }
@@ -381,8 +438,20 @@ func (h *simHandler) enter(fctx frugal.FContext, method string, args ...any) (*c
 	p.seenCid = fctx.CorrelationID()
 	p.seenTimeout = fctx.Timeout()
 	p.seenOpid, _ = fctx.RequestHeader("_opid")
-	for k, v := range p.respHdr {
-		fctx.AddResponseHeader(k, v)
+	if p.onward {
+		// some response headers, then an onward call with the very context the handler was given, then the rest
+		keys := sortedKeys(p.respHdr)
+		for _, k := range keys[:len(keys)/2+len(keys)%2] {
+			fctx.AddResponseHeader(k, p.respHdr[k])
+		}
+		p.onwardRet, p.onwardErr = h.env.down().Add(fctx, 40, 2)
+		for _, k := range keys[len(keys)/2+len(keys)%2:] {
+			fctx.AddResponseHeader(k, p.respHdr[k])
+		}
+	} else {
+		for _, k := range sortedKeys(p.respHdr) {
+			fctx.AddResponseHeader(k, p.respHdr[k])
+		}
 	}
 	if h.env.handlerHook != nil {
 		h.env.handlerHook(p, fctx)
